@@ -351,11 +351,12 @@ def r10(ctx, prog):
             src_ok = lv is not None and lv['k'] == 'DeclRefExpr' and any(d['rhs'] is not None and r0['i'] in set(f.walk(d['rhs'])) for d in _rd.local_defs(f, lv['d']))
             ok, why = src_ok, 'length is the return value of a plain receive into the buffer (flags %d)' % flags
         if not ok and ln is not None and bufsz is not None:
-            lv = f.s(f.strip_casts(ln))
-            if lv is not None and lv['k'] == 'DeclRefExpr':
-                gb = ival.guard_bounds(f, lv['d'], q.pt(f, i))
-                if gb and gb[1] is not None and gb[1] <= bufsz[1]:
-                    ok, why = True, 'length clamped to <= %d by a dominating guard' % bufsz[1]
+            from tbxlint import absint
+            it = absint.Interp(f).run()
+            env = it.at(i['i'])
+            iv = it.arith(env, ln) if env is not None else None
+            if iv is not None and iv[1] <= bufsz[1]:
+                ok, why = True, 'length is at most %d where the callback is invoked (interval abstract interpretation: clamp / guard)' % iv[1]
         ctx.ob('C15.R10', '%s|length-within-buffer' % f.name, ok, why if ok else
                'the length handed to the receive callback is the return value of a receive with flags %s (MSG_TRUNC/MSG_PEEK make it the size of the whole datagram) and is not '
                'clamped to the %s-byte buffer: the parser reads past the stack buffer' % (hex(flags) if flags is not None else '?', bufsz[1] if bufsz else '?'), where=f.loc(i['i']))
